@@ -17,8 +17,12 @@
 From Coq Require Import List NArith Bool.
 Import ListNotations.
 
-Inductive kind := KTy | KLt.
-Definition kind_eqb (a b : kind) : bool := match a, b with KTy, KTy | KLt, KLt => true | _, _ => false end.
+Inductive kind := KTy | KLt | KConst | KInt | KFloat.
+Definition kind_eqb (a b : kind) : bool :=
+  match a, b with KTy, KTy | KLt, KLt | KConst, KConst | KInt, KInt | KFloat, KFloat => true | _, _ => false end.
+(** the kind of a parameter as the arity/kind checks of lowering see it ([Kind::Ty | Lifetime | Const]) *)
+Definition kclass (k : kind) : kind := match k with KInt | KFloat => KTy | k => k end.
+Definition is_ty_kind (k : kind) : bool := match k with KTy | KInt | KFloat => true | _ => false end.
 
 Inductive scalar :=
 | Sbool | Schar | Si8 | Si16 | Si32 | Si64 | Si128 | Sisize
@@ -29,9 +33,13 @@ Record tflags := { tf_auto : bool; tf_marker : bool; tf_upstream : bool; tf_fund
                    tf_non_enumerable : bool; tf_coinductive : bool; tf_object_safe : bool }.
 
 Section Syn.
-  Variables V L R : Type.
+  (** [V]: type-variable occurrences; [L]: lifetime- and const-variable occurrences; [R]: item
+      references; [C]: const variables in generic-argument position (in the surface syntax a
+      bare parameter name there is just an identifier, so the surface instance is empty). *)
+  Variables V L R C : Type.
 
   Inductive lt := LVar (v : L) | LStatic | LErased.
+  Inductive konst := CVar (v : L) | CVal (n : N).
 
   Inductive ty :=
   | TVar (v : V)
@@ -41,9 +49,10 @@ Section Syn.
   | TRef (m : bool) (l : lt) (t : ty)          (* [m = true]: [&'a mut T] *)
   | TRaw (m : bool) (t : ty)                   (* [*mut T] / [*const T] *)
   | TSlice (t : ty)
+  | TArray (t : ty) (c : konst)
   | TStr
   | TNever
-  with garg := GTy (t : ty) | GLt (l : lt).
+  with garg := GTy (t : ty) | GLt (l : lt) | GCVal (n : N) | GCVar (c : C).
 
   Inductive wc :=
   | WImpl (self : ty) (tr : R) (args : list garg)
@@ -63,44 +72,51 @@ End Syn.
 Arguments LVar {L} v.
 Arguments LStatic {L}.
 Arguments LErased {L}.
-Arguments TVar {V L R} v.
-Arguments TAdt {V L R} r args.
-Arguments TScalar {V L R} s.
-Arguments TTuple {V L R} ts.
-Arguments TRef {V L R} m l t.
-Arguments TRaw {V L R} m t.
-Arguments TSlice {V L R} t.
-Arguments TStr {V L R}.
-Arguments TNever {V L R}.
-Arguments GTy {V L R} t.
-Arguments GLt {V L R} l.
-Arguments WImpl {V L R} self tr args.
-Arguments WLtOut {V L R} a b.
-Arguments WTyOut {V L R} t l.
-Arguments IStruct {V L R} name params fl fields wcs.
-Arguments IEnum {V L R} name params fl variants wcs.
-Arguments ITrait {V L R} name params fl wcs.
-Arguments IImpl {V L R} params upstream positive tr args self wcs.
+Arguments CVar {L} v.
+Arguments CVal {L} n.
+Arguments TVar {V L R C} v.
+Arguments TAdt {V L R C} r args.
+Arguments TScalar {V L R C} s.
+Arguments TTuple {V L R C} ts.
+Arguments TRef {V L R C} m l t.
+Arguments TRaw {V L R C} m t.
+Arguments TSlice {V L R C} t.
+Arguments TArray {V L R C} t c.
+Arguments TStr {V L R C}.
+Arguments TNever {V L R C}.
+Arguments GTy {V L R C} t.
+Arguments GLt {V L R C} l.
+Arguments GCVal {V L R C} n.
+Arguments GCVar {V L R C} c.
+Arguments WImpl {V L R C} self tr args.
+Arguments WLtOut {V L R C} a b.
+Arguments WTyOut {V L R C} t l.
+Arguments IStruct {V L R C} name params fl fields wcs.
+Arguments IEnum {V L R C} name params fl variants wcs.
+Arguments ITrait {V L R C} name params fl wcs.
+Arguments IImpl {V L R C} params upstream positive tr args self wcs.
 
 (** lowered program: de Bruijn (depth, index) and item positions *)
 Definition ivar := (nat * nat)%type.
-Definition ity := ty ivar ivar nat.
-Definition igarg := garg ivar ivar nat.
+Definition ity := ty ivar ivar nat ivar.
+Definition igarg := garg ivar ivar nat ivar.
 Definition ilt := lt ivar.
-Definition iwc := wc ivar ivar nat.
-Definition iqwc := qwc ivar ivar nat.
-Definition iitem := item ivar ivar nat.
+Definition ikonst := konst ivar.
+Definition iwc := wc ivar ivar nat ivar.
+Definition iqwc := qwc ivar ivar nat ivar.
+Definition iitem := item ivar ivar nat ivar.
 Definition program := list iitem.
 
 (** surface program: writer names *)
 Inductive avar := AV (dd ii : nat) | ASelf.
 Definition alvar := (nat * nat)%type.          (* ['_D_I] *)
-Definition aty := ty avar alvar N.
-Definition agarg := garg avar alvar N.
+Definition aty := ty avar alvar N Empty_set.
+Definition agarg := garg avar alvar N Empty_set.
 Definition alt := lt alvar.
-Definition awc := wc avar alvar N.
-Definition aqwc := qwc avar alvar N.
-Definition aitem := item avar alvar N.
+Definition akonst := konst alvar.
+Definition awc := wc avar alvar N Empty_set.
+Definition aqwc := qwc avar alvar N Empty_set.
+Definition aitem := item avar alvar N Empty_set.
 Definition ast := list aitem.
 
 (* ------------------------------------------------------------------------------------- *)
@@ -109,11 +125,11 @@ Definition ast := list aitem.
 Inductive kw :=
 | Kstruct | Kenum | Ktrait | Kimpl | Kfor | Kwhere | Kforall | Kmut | Kstatic | Kerased
 | Kscalar (s : scalar)
-| Kupstream | Kfundamental | Kphantom_data | Kone_zst | Kstr | Kconst
+| Kupstream | Kfundamental | Kphantom_data | Kone_zst | Kstr | Kconst | Kint | Kfloat
 | Kauto | Kmarker | Knon_enumerable | Kcoinductive | Kobject_safe.
 
 Inductive punct := PLt | PGt | PLParen | PRParen | PLBrace | PRBrace | PLBracket | PRBracket
-                 | PComma | PColon | PAmp | PBang | PHash | PStar.
+                 | PComma | PColon | PAmp | PBang | PHash | PStar | PSemi.
 
 Inductive tok :=
 | KW (k : kw)
@@ -123,4 +139,5 @@ Inductive tok :=
 | SELF
 | FIELD (i : nat)       (* [field_i] *)
 | VARIANT (i : nat)     (* [variant_i] *)
+| NUM (n : N)           (* a constant value *)
 | P (p : punct).
